@@ -3,7 +3,7 @@ CONSTANTS
   MaxLen = 4
   Prefix <- PfxTm
   Suffix <- SfxName
-  ExtChoices <- ExtAllNone
+  ExtChoices <- ExtMany
   OsmChoices <- OnlyOsm
 INIT MCInit
 NEXT MCNext
